@@ -33,6 +33,7 @@ let register (reg : string -> (string list -> string) -> unit) : unit =
   op "prs_jlsn" (fun g bs -> show jls_fields (PrsJls.jlsn_decode g (fuel_of bs) bs));
   op "prs_jll" (fun g bs -> show j_fields (PrsJpeg.jll_decode g (fuel_of bs) bs));
   op "prs_sv1" (fun g bs -> show j_fields (PrsJpeg.sv1_decode g (fuel_of bs) bs));
+  op "prs_bl" (fun g bs -> show j_fields (PrsBaseline.bl_decode g (fuel_of bs) bs));
   op "prs_j2k" (fun g bs -> show k_fields (PrsJ2k.k_main_header g (fuel_of bs) bs));
   (* declared S of the first frame header, saturated at 2^61 like the Go walker *)
   reg "prs_declared" (fun a -> match a with
